@@ -327,10 +327,11 @@ _CONC_RULE = ("conc suite: real goroutines on client.Client over a connection mo
               "peer acknowledges every complete message), hsmix (senders with ack while another goroutine runs Handshake and "
               "TransportPhase), lifecycle (6 goroutines x 200 random Connect/Disconnect/Reconnect/TransportPhase/Send), hsrace "
               "(honest handshakes while others poll TransportPhase), helpermix (SendMessage / SendForward / SendPackedFromBytes / SendRaw "
-              "from 4 goroutines, payloads 40 B .. 140 KB around 2 KiB / 4 KiB / 64 KiB); judged on the recorded wire (a concatenation of complete, "
+              "and list-bearing records from 4 goroutines, payloads 40 B .. 140 KB around 2 KiB / 4 KiB / 64 KiB), hsrec (a Reconnect "
+              "arrives while a handshake waits for its PONG: transport phase only on a connection that saw a PING); judged on the recorded wire (a concatenation of complete, "
               "unmixed encodings, every successful send exactly once), on dial/close accounting and under the race detector. "
               "distinct = distinct (scenario, seed); non-trivial = every run")
-_CONC_SUITE = dict(suite='conc', n=dict(quick=12, thorough=240), shards=dict(quick=1, thorough=8), trivial=r'^-$')
+_CONC_SUITE = dict(suite='conc', n=dict(quick=14, thorough=280), shards=dict(quick=1, thorough=8), trivial=r'^-$')
 _CONC_ASSUME = ["the translator is trusted for the shape of the control-flow graph (which statements are lock operations, accesses, calls; "
                 "their order and branching); its lockset annotations are not trusted: FV.Lk.check re-validates them in the kernel",
                 "sync.Mutex / sync.RWMutex: standard exclusion, no fairness assumed; 'data race' = two goroutines enabled at conflicting accesses"]
@@ -549,3 +550,17 @@ PROPS['C05']['rule'] = PROPS['C05']['rule'] + (' || hsh suite: NewPing / NewPing
     'salts, nonces and hostnames of 0..600 bytes (around 112 / 128 / 496 / 512), the validating side holding a different key / nonce / salt / '
     'hostname or a truncated / upper-cased / empty / extended digest; judged against the model and against the formula evaluated on '
     'digests the harness computes')
+
+# C02: the bin of a PackedForward message is the entries' encodings; C07: decoded values do not alias the input
+PROPS['C02']['suites'] = PROPS['C02']['suites'] + [_PACKED_SUITES[0]]
+PROPS['C02']['rule'] = PROPS['C02']['rule'] + ' || ' + _PACKED_RULE
+PROPS['C07']['suites'] = PROPS['C07']['suites'] + [_CODEC_SUITE]
+PROPS['C07']['rule'] = PROPS['C07']['rule'] + (' || codec suite: after every successful decode the caller overwrites the slice it decoded from / the reader '
+    'takes in the next 8 KiB, and the decoded value is rendered again (it must not look into that memory)')
+
+# C07: the handshake helpers do not write into the caller's salt / nonce / key buffers
+PROPS['C07']['suites'] = PROPS['C07']['suites'] + [_HSH_SUITE]
+
+# C12: the id of a decoded message is stable (does not alias the reader's buffer): codec suite's reuse check
+PROPS['C12']['suites'] = PROPS['C12']['suites'] + [_CODEC_SUITE]
+PROPS['C12']['rule'] = PROPS['C12']['rule'] + ' || codec suite (decoded values re-rendered after the input memory is reused)'
